@@ -3,20 +3,22 @@ import Dbg.Model.Boom
 namespace Boom
 open Compress (Seq)
 
-abbrev Pairs := Array (Seq × Nat)
+abbrev Pairs (V : Type) := Array (Seq × V)
+
+variable {V : Type}
 
 /-- 0 if slot `j` holds a pair whose key hashes to `j`, else 1 -/
-def ind (th : Seq → Option Nat) (ps : Pairs) (j : Nat) : Nat :=
+def ind (th : Seq → Option Nat) (ps : Pairs V) (j : Nat) : Nat :=
   if (ps[j]?.bind fun p => th p.1) = some j then 0 else 1
 
 /-- number of slots below `n` not holding their own pair -/
-def cnt (th : Seq → Option Nat) (ps : Pairs) : Nat → Nat
+def cnt (th : Seq → Option Nat) (ps : Pairs V) : Nat → Nat
   | 0 => 0
   | n + 1 => cnt th ps n + ind th ps n
 
-theorem ind_le (th : Seq → Option Nat) (ps : Pairs) (j : Nat) : ind th ps j ≤ 1 := by unfold ind; split <;> omega
+theorem ind_le (th : Seq → Option Nat) (ps : Pairs V) (j : Nat) : ind th ps j ≤ 1 := by unfold ind; split <;> omega
 
-theorem cnt_le (th : Seq → Option Nat) (ps : Pairs) (n : Nat) : cnt th ps n ≤ n := by
+theorem cnt_le (th : Seq → Option Nat) (ps : Pairs V) (n : Nat) : cnt th ps n ≤ n := by
   induction n with
   | zero => simp [cnt]
   | succ n ih => have := ind_le th ps n; simp only [cnt]; omega
@@ -27,7 +29,7 @@ theorem ite_lt_succ (x n u : Nat) (h : n ≠ x) : (if x < n + 1 then u else 0) =
   · have : ¬ x < n + 1 := by omega
     simp [h1, this]
 
-theorem cnt_change (th : Seq → Option Nat) (ps ps' : Pairs) (a b : Nat) (hab : a ≠ b)
+theorem cnt_change (th : Seq → Option Nat) (ps ps' : Pairs V) (a b : Nat) (hab : a ≠ b)
     (hsame : ∀ j, j ≠ a → j ≠ b → ps'[j]? = ps[j]?) (n : Nat) :
     cnt th ps' n + (if a < n then ind th ps a else 0) + (if b < n then ind th ps b else 0)
       = cnt th ps n + (if a < n then ind th ps' a else 0) + (if b < n then ind th ps' b else 0) := by
@@ -51,11 +53,11 @@ theorem cnt_change (th : Seq → Option Nat) (ps ps' : Pairs) (a b : Nat) (hab :
         omega
 
 /-- the hash function is defined on every stored key, with a rank below the number of pairs -/
-def Ranked (th : Seq → Option Nat) (ps : Pairs) : Prop := ∀ p ∈ ps.toList, ∃ s, th p.1 = some s ∧ s < ps.size
+def Ranked (th : Seq → Option Nat) (ps : Pairs V) : Prop := ∀ p ∈ ps.toList, ∃ s, th p.1 = some s ∧ s < ps.size
 /-- … and injective on the stored pairs -/
-def Inj (th : Seq → Option Nat) (ps : Pairs) : Prop := ps.toList.Pairwise fun p q => th p.1 ≠ th q.1
+def Inj (th : Seq → Option Nat) (ps : Pairs V) : Prop := ps.toList.Pairwise fun p q => th p.1 ≠ th q.1
 
-theorem Inj.pos {th : Seq → Option Nat} {ps : Pairs} (h : Inj th ps) (a b : Nat) (ha : a < ps.size) (hb : b < ps.size)
+theorem Inj.pos {th : Seq → Option Nat} {ps : Pairs V} (h : Inj th ps) (a b : Nat) (ha : a < ps.size) (hb : b < ps.size)
     (e : th ps[a].1 = th ps[b].1) : a = b := by
   have hp := List.pairwise_iff_getElem.mp h
   rcases Nat.lt_trichotomy a b with h1 | h1 | h1
@@ -67,14 +69,14 @@ theorem Inj.pos {th : Seq → Option Nat} {ps : Pairs} (h : Inj th ps) (a b : Na
     simp only [Array.getElem_toList] at this
     exact absurd e.symm this
 
-theorem ind_zero_iff (th : Seq → Option Nat) (ps : Pairs) (j : Nat) (hj : j < ps.size) :
+theorem ind_zero_iff (th : Seq → Option Nat) (ps : Pairs V) (j : Nat) (hj : j < ps.size) :
     ind th ps j = 0 ↔ th ps[j].1 = some j := by
   unfold ind
   rw [Array.getElem?_eq_getElem hj]
   simp only [Option.bind_some]
   split <;> simp_all
 
-theorem settle_spec (th : Seq → Option Nat) (i : Nat) : ∀ (fuel : Nat) (ps : Pairs), Ranked th ps → Inj th ps → i < ps.size →
+theorem settle_spec (th : Seq → Option Nat) (i : Nat) : ∀ (fuel : Nat) (ps : Pairs V), Ranked th ps → Inj th ps → i < ps.size →
     cnt th ps ps.size < fuel →
     ∃ ps', settle th i fuel ps = some ps' ∧ ps'.Perm ps ∧ ind th ps' i = 0 ∧ (∀ j, ind th ps j = 0 → ind th ps' j = 0) := by
   intro fuel
@@ -131,7 +133,7 @@ theorem settle_spec (th : Seq → Option Nat) (i : Nat) : ∀ (fuel : Nat) (ps :
       unfold ind at hj ⊢
       rw [hsame j hji hjs]; exact hj
 
-theorem createLoop_spec (th : Seq → Option Nat) : ∀ (r i : Nat) (ps : Pairs), Ranked th ps → Inj th ps → i + r = ps.size →
+theorem createLoop_spec (th : Seq → Option Nat) : ∀ (r i : Nat) (ps : Pairs V), Ranked th ps → Inj th ps → i + r = ps.size →
     (∀ j, j < i → ind th ps j = 0) →
     ∃ ps', createLoop th r i ps = some ps' ∧ ps'.Perm ps ∧ ∀ j, j < ps.size → ind th ps' j = 0 := by
   intro r
@@ -206,5 +208,94 @@ theorem create_spec (th : Compress.Seq → Option Nat) (keys : List Compress.Seq
       symm; exact List.zip_of_prod rfl rfl
     simp only [this]
     simpa using Array.perm_iff_toList_perm.mp e2
+
+end Boom
+
+namespace Boom
+variable {V : Type}
+
+theorem createTable_spec (th : Compress.Seq → Option Nat) (rows : List (Compress.Seq × V)) (hm : MPH th (rows.map (·.1))) :
+    ∃ T, createTable th rows = some T ∧ T.Perm rows ∧ ∀ pos k, (T.map (·.1))[pos]? = some k → th k = some pos := by
+  have hr : Ranked th rows.toArray := by
+    intro p hp
+    have hp' : p ∈ rows := by simpa using hp
+    obtain ⟨s, h1, h2⟩ := hm.1 p.1 (List.mem_map_of_mem (f := (·.1)) hp')
+    exact ⟨s, h1, by simpa using h2⟩
+  have hinj : Inj th rows.toArray := by
+    have := List.pairwise_map.mp hm.2
+    simpa [Inj] using this
+  obtain ⟨ps', e1, e2, e3⟩ := createLoop_spec th rows.toArray.size 0 rows.toArray hr hinj (by omega) (fun j hj => by omega)
+  have hsz' : ps'.size = rows.length := by
+    have := (Array.perm_iff_toList_perm.mp e2).length_eq
+    simpa using this
+  refine ⟨ps'.toList, ?_, by simpa using Array.perm_iff_toList_perm.mp e2, ?_⟩
+  · have : rows.length = rows.toArray.size := by simp
+    simp only [createTable, this, e1, Option.map_some]
+  · intro pos k hk
+    simp only [List.getElem?_map, Option.map_eq_some_iff] at hk
+    obtain ⟨p, hp, rfl⟩ := hk
+    have hlt : pos < ps'.size := by
+      rcases Nat.lt_or_ge pos ps'.size with h | h
+      · exact h
+      · rw [List.getElem?_eq_none (by simpa using h)] at hp; cases hp
+    have h0 := e3 pos (by simpa [hsz'] using hlt)
+    have := (ind_zero_iff th ps' pos hlt).mp h0
+    have hpe : ps'[pos] = p := by
+      have : ps'.toList[pos]? = some ps'[pos] := by simp [hlt]
+      rw [this] at hp; exact Option.some.inj hp
+    rw [← hpe]; exact this
+
+/-- `get_key_id` on slotted keys is the position of the key: exact for present and absent k-mers, whatever the hash
+    function answers for the absent ones -/
+theorem keyId_exact (th : Compress.Seq → Option Nat) (keys : List Compress.Seq)
+    (hs : ∀ pos k, keys[pos]? = some k → th k = some pos) (hr : ∀ k pos, th k = some pos → pos < keys.length)
+    (k : Compress.Seq) : keyIdOf th keys k = some (keys.findIdx? (· == k)) := by
+  unfold keyIdOf
+  cases h : th k with
+  | none =>
+    simp only
+    congr 1
+    symm
+    rw [List.findIdx?_eq_none_iff]
+    intro x hx
+    obtain ⟨i, hi⟩ := List.getElem?_of_mem hx
+    have := hs i x hi
+    by_cases e : x = k
+    · subst e; rw [h] at this; cases this
+    · simpa using e
+  | some pos =>
+    have hp := hr k pos h
+    have hk : keys[pos]? = some keys[pos] := List.getElem?_eq_getElem hp
+    simp only [hk]
+    by_cases e : k = keys[pos]
+    · simp only [e, beq_self_eq_true, if_true]
+      congr 1
+      symm
+      rw [List.findIdx?_eq_some_iff_getElem]
+      refine ⟨hp, by simp [← e], ?_⟩
+      intro j hj
+      simp only [beq_iff_eq]
+      intro ej
+      have hjl : j < keys.length := by omega
+      have := hs j keys[j] (List.getElem?_eq_getElem hjl)
+      rw [ej, ← e, h] at this
+      have := Option.some.inj this
+      omega
+    · have e' : (k == keys[pos]) = false := by simpa using e
+      simp only [e', Bool.false_eq_true, if_false]
+      congr 1
+      symm
+      rw [List.findIdx?_eq_none_iff]
+      intro x hx
+      obtain ⟨i, hi⟩ := List.getElem?_of_mem hx
+      have h1 := hs i x hi
+      by_cases ex : x = k
+      · subst ex
+        rw [h] at h1
+        have : pos = i := Option.some.inj h1
+        subst this
+        rw [hk] at hi
+        exact absurd (Option.some.inj hi).symm e
+      · simpa using ex
 
 end Boom
